@@ -75,6 +75,8 @@ def all_cases(ctx):
         mk("fetch", "present", "small", "small", "tmpdir", "short", seed=s),
         mk("fetch", "present", "small", "big", "tmpdir", "shortstream", seed=s),
         mk("fetch", "absent", "small", "small", "tmpdir", "shortstream", seed=s),
+        mk("fetch", "present", "small", "big", "tmpdir", "badsig", seed=s),
+        mk("fetch", "absent", "small", "small", "tmpdir", "badsig", seed=s),
     ]
     for prim in ("fstree", "createatomic", "copyatomic", "replaceatomic", "writefile"):
         for dst in ("absent", "mode"):
@@ -109,6 +111,7 @@ def all_cases(ctx):
     quick.append([c for c in extra if c["fault"] == "srcerr"][s % 2])
     quick.append([c for c in extra if c["fault"] == "srceof"][(s + 1) % 2])
     quick.append([c for c in extra if c["fault"] == "shortstream"][s % 2])
+    quick.append([c for c in extra if c["fault"] == "badsig"][(s + 1) % 2])
     return quick, thorough
 
 
@@ -314,7 +317,7 @@ def run(ctx):
     for sc, h in zip(full_scripts, full):
         c = sc["case"]
         ordinals(h)
-        if c["fault"] == "shortstream":
+        if c["fault"] in ("shortstream", "badsig"):
             # every attempt of this download fails by itself (and is retried after a back-off): the complete trace and
             # the final tree are judged, no further faults are injected
             want[c["id"]] = set()
